@@ -33,6 +33,7 @@ func runC09(c *Ctx) {
 	memberResolutionOrder(c, "R8")
 	assignmentTargetLocation(c, "R15")
 	c.shared("R13", "C06/R3", "`a op= b` means `a = a op b` with b the whole right-hand expression: the assignment parselets parse their right side from the assignment level, and the rewriter builds left = left OP right from it", keyHas("rbp", "desugar", "statement-level-expression"), runC06)
+	c.shared("R17", "C19/R4", "assigning to a variable changes that variable: a name bound by a pattern that did not match is not left bound (it would shadow the outer variable of that name and alias an element of the subject, into which the assignment then writes)", keyHas("bindings-are-a-result", "bindings-per-alternative"), runC19)
 	c.shared("R16", "C16/R3", "scalars are copied on insertion into containers: pluck stores a cell of its own per key (a copy of the member's value, or null), never the source object's cell", keyHas("pluck"), runC16)
 	c.shared("R14", "C14/R4", "an assignment through `$` changes the root it was made through only: every selector's root is the result of evaluating that selector on a conversion of the input value made for it (not on a tree another selector's rules have already assigned into)", keyHas("root-list-contents"), func(s *Ctx) { rootsPerValue(s, "R4") })
 	c.shared("R12", "C10/R6", "an index assignment changes exactly the addressed location: every evaluation of a literal builds cells of its own — nothing evaluated earlier is remembered in the evaluator or in the syntax tree and handed out again", keyHas("evaluator-state", "syntax-tree-store", "interpreter-state"), func(s *Ctx) { interpreterState(s, "R6") })
@@ -470,6 +471,35 @@ func c09R6(c *Ctx) {
 				relooked = true
 			}
 		}
+	}
+	// … at every depth: when the pending parent's own parent is pending too (o.a.b.x = o.a.b.y = 1), the
+	// fresh look has to climb — the helper that takes it calls itself where the parent's tag is nil
+	for _, rl := range F.At(rec.Block()).Rels() {
+		call, ok := rl.x.(*ssa.Call)
+		if !ok || rl.op != relEQ || !isNilConst(rl.y) || !strings.Contains(p.Render(rl.x), "specObj.Value.ParentObj") {
+			continue
+		}
+		g := call.Call.StaticCallee()
+		if g == nil || !p.InLang(g) || len(g.Blocks) == 0 {
+			continue
+		}
+		climbs := false
+		for _, gc := range callsIn(g) {
+			if gc.Common().StaticCallee() != g {
+				continue
+			}
+			for _, r2 := range FactsOf(g).At(gc.Block()).Rels() {
+				if r2.op != relEQ {
+					continue
+				}
+				if sf, ok := loadedField(r2.x); ok && sf.Is("Value", "Tag") {
+					if k, ok := constInt(r2.y); ok && constNames(p.Lang.Types, "ValueTag")[k] == "ValueNil" {
+						climbs = true
+					}
+				}
+			}
+		}
+		c.check(climbs, "R6", "parent-relook-climbs", p.Pos(g.Pos()), "the fresh look at a pending parent recurses where that parent's own parent is pending", "the fresh look ("+shortName(g)+") resolves one level only: when the pending parent's own parent is pending too, it finds nothing and the chain is created again — `o.a.b.x = o.a.b.y = 1` loses y")
 	}
 	c.check(relooked, "R6", "parent-not-replaced", p.InstrPos(rec), "a pending parent is created only where a fresh look found that it still does not exist", "the pending parent is created without looking whether it exists by now: in `o.a.x = o.a.y = 1` the inner assignment creates o.a, the outer one creates it again and the member stored first is lost")
 	c.check(g["specObj.Value.ParentObj.Tag == ValueNil"], "R6", "recursion-guard", p.InstrPos(rec), "the parent is materialised only when it is itself pending", "the recursive materialisation is not guarded by `parent is a pending (nil) value`")
